@@ -75,4 +75,10 @@ META = {
         note="Schedules are those produced by the bubble's scheduler for the enumerated arrival patterns; independence is checked as 'dispatched at quiescence', a bounded-progress restatement.",
         technique="runtime monitoring: online in-flight/order monitor in handlers, progress assertions at synctest quiescence, race detector",
     ),
+    "C09": dict(
+        text="Exploration with an exhaustive core: the complete 512 x 12 decision table (plus re-registration) is executed on the real ServeMux on every run; the concurrent part checks recorded histories for linearizability, which covers the interleavings the scheduler produced.",
+        design_ref="DESIGN.md section 4, C09",
+        note="The reference is a 3-slot decision function; porcupine v1.3.0 decides the concurrent histories (a checker time-out is inconclusive).",
+        technique="runtime monitoring: instrumented handlers vs reference decision function (exhaustive table); porcupine linearizability check of recorded register/dispatch histories; race detector",
+    ),
 }
